@@ -605,3 +605,76 @@ func c15ContinueWakes(c *Ctx, r *Result, dbgIface *types.Interface) {
 	}
 	r.Floor("R15i", n, 1)
 }
+
+// ---- R16h: the end of a scope chain is nil --------------------------------------------------------
+
+// parser.Scope.Parent() returns nil at the root of a chain ("returns the parent scope or nil"), and
+// chains do not all end in the global scope (a constructor's scope has no parent). In the code that
+// answers debugger commands a method called on the result of Parent() must be reached only where
+// that result was tested against nil on the path — otherwise `describe` on a thread suspended in
+// such a scope is a nil dereference in the command handler.
+func c16ScopeChainEnds(c *Ctx, r *Result, funcs []*ssa.Function) {
+	scopeIface := c.Interface("parser", "Scope")
+	if scopeIface == nil {
+		r.Undecide("R16h: parser.Scope not found")
+		return
+	}
+	isParentCall := func(v ssa.Value) bool {
+		call, ok := v.(*ssa.Call)
+		return ok && call.Call.IsInvoke() && call.Call.Method.Name() == "Parent" && types.Identical(call.Call.Value.Type().Underlying(), scopeIface)
+	}
+	n := 0
+	for _, fn := range funcs {
+		has := false
+		allInstrs(fn, func(in ssa.Instruction) {
+			if v, ok := in.(ssa.Value); ok && isParentCall(v) {
+				has = true
+			}
+		})
+		if !has {
+			continue
+		}
+		key := c.FuncKey(fn)
+		bad := map[ssa.Instruction]bool{}
+		seen := map[ssa.Instruction]bool{}
+		o := &PathOracle{NonNilParams: true}
+		// Pre, not Visit: in a loop the receiver can be the previous execution's result of this
+		// very call, whose refinements are dropped when the call is executed again
+		o.Pre = func(st *PState, in ssa.Instruction) {
+			ci, ok := in.(ssa.CallInstruction)
+			if !ok || !ci.Common().IsInvoke() {
+				return
+			}
+			recv := st.canon(ci.Common().Value)
+			if !isParentCall(recv) {
+				return
+			}
+			seen[in] = true
+			if st.Get(ci.Common().Value, o) != AvNonNil && st.Get(recv, o) != AvNonNil {
+				bad[in] = true
+			}
+		}
+		if !ExplorePaths(fn, o) {
+			r.Undecide("R16h: path exploration of %s exceeded its bound", key)
+			continue
+		}
+		i := 0
+		allInstrs(fn, func(in ssa.Instruction) {
+			if !seen[in] {
+				return
+			}
+			n++
+			site := fmt.Sprintf("%s#parent-use#%d", key, i)
+			i++
+			pos := c.Pos(c.InstrPos(in))
+			if bad[in] {
+				r.Instance("R16h", site, pos, "finding", "method called on an untested Parent() result", true)
+				r.Report(Finding{Rule: "R16h", Site: site, Pos: pos,
+					Msg: key + ": calls " + in.(ssa.CallInstruction).Common().Method.Name() + "() on the result of Scope.Parent() on a path where it was not tested against nil: the chain of a constructor's scope (default parameter values of init) ends without reaching the global scope, and the command handler dereferences nil"})
+			} else {
+				r.Instance("R16h", site, pos, "ok", "reached only where the Parent() result is known non-nil", true)
+			}
+		})
+	}
+	r.Floor("R16h", n, 1)
+}
